@@ -64,12 +64,12 @@ func c06FromSchemaFile(c *Ctx, r *gen.Rand) {
 	ncols := len(schema.Columns())
 	nrg := gen.Pick(r, []int{1, 2, 3, 5})
 	per := gen.Pick(r, []int{20, 90, 300})
-	shape := r.Intn(6)
+	shape := r.Intn(7)
 	limit := gen.Pick(r, []int{1, 4, 16})
 	c.D("source", "schema_file")
 	c.D("row_groups", nrg)
 	c.D("rows_per_group", per)
-	c.D("shape", []string{"ascending", "descending", "unordered", "outlier", "rowgroup_overlap", "null_rowgroup_between"}[shape])
+	c.D("shape", []string{"ascending", "descending", "unordered", "outlier", "rowgroup_overlap", "null_rowgroup_between", "descending_groups_rising"}[shape])
 	c.D("cisize", limit)
 	var buf bytes.Buffer
 	w := parquet.NewWriter(&buf, schema, parquet.PageBufferSize(gen.Pick(r, []int{32, 128, 1024})), parquet.ColumnIndexSizeLimit(func([]string) int { return limit }), parquet.DataPageVersion(1+r.Intn(2)))
@@ -92,6 +92,10 @@ func c06FromSchemaFile(c *Ctx, r *gen.Rand) {
 				if i%97 == 5 && i < per/2 {
 					k = int64(nrg * per)
 				}
+			case 6:
+				// every row group descending on its own, but its first rows lie above the last rows of the group
+				// before it: [11 10][2 1] then [9 8][0 0]
+				k = base + int64(per) - int64(i) + int64(g%2)*int64(per/2)
 			case 5:
 				// every row group ascending on its own, the groups in falling order, and every other group
 				// holds nulls only: neighbours with values are never adjacent
@@ -196,6 +200,26 @@ func c06ProbeChunk(c *Ctx, chunk parquet.ColumnChunk, src, col string) bool {
 		c.Obs("order_unordered", 1)
 	}
 	c.Obs("logical_"+col, 1)
+	// the order claim that selects the search algorithm must be true of the recorded bounds (for file chunks C05
+	// checks the stored claim; the concatenated index of a MultiRowGroup computes its own)
+	asc, desc := true, true
+	prev := -1
+	for q := 0; q < index.NumPages(); q++ {
+		if index.NullPage(q) {
+			continue
+		}
+		if prev >= 0 {
+			cmin, cmax := typ.Compare(index.MinValue(prev), index.MinValue(q)), typ.Compare(index.MaxValue(prev), index.MaxValue(q))
+			asc = asc && cmin <= 0 && cmax <= 0
+			desc = desc && cmin >= 0 && cmax >= 0
+		}
+		prev = q
+	}
+	c.Obs("order_claims_checked", 1)
+	if (index.IsAscending() && !asc) || (index.IsDescending() && !desc) {
+		c.Fail("c06.false_order_claim", map[string]any{"source": src, "column": col, "claim": map[bool]string{true: "ascending", false: "descending"}[index.IsAscending()]}, "column %s (%s): IsAscending=%v IsDescending=%v but the recorded bounds of the %d pages are not in that order", col, src, index.IsAscending(), index.IsDescending(), index.NumPages())
+		return false
+	}
 	keys := map[string]any{"api": "Search", "source": src, "column": col}
 	for pi, vs := range contents {
 		for _, v := range vs {
